@@ -33,6 +33,11 @@ type Prog struct {
 	FuncDecl map[*types.Func]*ast.FuncDecl
 	Files    int
 
+	// InlineLevel > 0: helper calls were inlined before analysis (normal form, see inline.go)
+	InlineLevel int
+	Inlined     []string
+	listOnly    bool
+
 	roles *Roles
 	sums  map[sumKey]bool
 }
@@ -127,12 +132,40 @@ func Load(dir string, extraEnv ...string) (*Prog, error) {
 		return nil, fmt.Errorf("load %s: %d source files are in no loaded package (build constraints?): %v", dir, len(missing), missing)
 	}
 
+	if err := p.buildSSA(); err != nil {
+		return nil, err
+	}
+	return p, nil
+}
+
+// WithInlining returns a copy of p whose SSA was rebuilt from the same type-checked packages and
+// normalised by inlining helper calls (see inline.go). Level 0 returns p itself.
+func (p *Prog) WithInlining(level int) (*Prog, error) { return p.WithInlinedSet(level, nil) }
+
+// WithInlinedSet is WithInlining restricted to the helpers named in only (all eligible ones when nil).
+func (p *Prog) WithInlinedSet(level int, only map[string]bool) (*Prog, error) {
+	if level == 0 {
+		return p, nil
+	}
+	q := &Prog{Dir: p.Dir, Module: p.Module, Fset: p.Fset, Pkgs: p.Pkgs, ByPath: p.ByPath, SSAPkgs: map[string]*ssa.Package{},
+		FuncDecl: p.FuncDecl, Files: p.Files, sums: map[sumKey]bool{}, InlineLevel: level}
+	if err := q.buildSSA(); err != nil {
+		return nil, err
+	}
+	if err := q.inlineSet(level, only); err != nil {
+		return nil, err
+	}
+	return q, nil
+}
+
+func (p *Prog) buildSSA() error {
+	pkgs := p.Pkgs
 	prog, spkgs := ssautil.Packages(pkgs, ssa.InstantiateGenerics)
 	prog.Build()
 	p.SSA = prog
 	for i, sp := range spkgs {
 		if sp == nil {
-			return nil, fmt.Errorf("no SSA for %s", pkgs[i].PkgPath)
+			return fmt.Errorf("no SSA for %s", pkgs[i].PkgPath)
 		}
 		p.SSAPkgs[pkgs[i].PkgPath] = sp
 	}
@@ -151,7 +184,7 @@ func Load(dir string, extraEnv ...string) (*Prog, error) {
 		}
 		return a.String() < b.String()
 	})
-	return p, nil
+	return nil
 }
 
 // InRepo reports whether fn is a function with a body defined in the repository.
